@@ -1545,3 +1545,19 @@ package apd
 //@   ensures [trap] ret2 != nil <==> trapped(c, ret1)
 //@   ensures [nan] NaN1(x, d, ret1)
 //@   ensures [inf] Inf1(x, old(x.Negative), d, ret1)
+
+// ---------------------------------------------------------------- Int64 (C17)
+
+//@ define isinteger(d: *Decimal): bool = d.Exponent >= 0 || mod(val(d.Coeff), pow10(-d.Exponent)) == 0
+//@ define intmag(d: *Decimal): int = ite(d.Exponent >= 0, val(d.Coeff) * pow10(d.Exponent), div(val(d.Coeff), pow10(-d.Exponent)))
+
+//@ func (*Decimal).Int64
+//@   props C17 C04
+//@   exported
+//@   requires inv(d) && -2000000000 <= d.Exponent
+//@   assigns nothing
+//@   loop 1 invariant 0 <= i && i <= integ.Exponent && integ.Exponent == max(d.Exponent, 0) && val(integ.Coeff) * pow10(integ.Exponent) <= 9223372036854775808 && (integ.Exponent > 0 ==> v == val(integ.Coeff) * pow10(i)) && (integ.Exponent == 0 ==> v == wrap64(val(integ.Coeff))) && val(integ.Coeff) >= 0
+//@   loop 1 hint mul_le(pow10(i + 1), pow10(integ.Exponent), val(integ.Coeff))
+//@   loop 1 decreases integ.Exponent - i
+//@   ensures [ok] ret1 == nil <==> (d.Form == Finite && isinteger(d) && signed(d.Negative, intmag(d)) >= -9223372036854775808 && signed(d.Negative, intmag(d)) <= 9223372036854775807)
+//@   ensures [value] ret1 == nil ==> ret0 == signed(d.Negative, intmag(d))
